@@ -14,6 +14,18 @@ from harness.common import (make_vertices, make_links, symbolic_assoc_state, inv
 
 ID = "C01"
 
+MANIFEST = {
+    "level": "Bounded model checking by symbolic execution of the real mutators: (IND) one symbolic call of each of 10 "
+             "mutator families from an arbitrary pool state satisfying the invariant - all list lengths, elements and "
+             "argument aliasings are SMT variables - proves the invariant inductive, i.e. for histories of any length "
+             "within the pool bound; (BMC) every history of depth 2 (quick) / 3 (thorough) from the constructed pool. "
+             "The invariant is asserted on returning and on raising paths.",
+    "note": "Bounds: 3 vertices, 2 pool links (+1 created), pre-state lists <= 2 (quick) / 3 (thorough). Trusted: pysym's "
+            "model of Python (validated on every explored path against CPython), z3. Counterexamples to induction are "
+            "reported only if their pre-state is reached through the public API on the real code.",
+    "design_ref": "DESIGN.md 5 (C01), 4.1",
+}
+
 FAMILIES = ["add_to_link", "remove_from_link", "add_vertex", "unlink_from", "set_v1", "set_v2",
             "ctor", "link_from_to", "unlink", "vertex_ctor"]
 
@@ -115,6 +127,7 @@ def scenario(B, p):
     if p["mode"] == "ind":
         symbolic_assoc_state(B, verts, links, p["K"], p["cap"])
         B.assume(inv01(B, verts, links), "Inv01(pre)")
+        B.try_public_assoc(verts, links)
         outcome, r = do_step(B, p["family"], verts, links, "s0.")
         verts2 = verts + (B.adopt(r, "newv") if p["family"] == "vertex_ctor" else [])
         links2 = links + (B.adopt(r, "newl") if p["family"] in ("ctor", "link_from_to") else [])
